@@ -67,31 +67,57 @@ def run(ctx: Ctx):
     col.ob("G16", "S2", f"{where}::pure", not muts, f"`{u(muts[0]) if muts else ''}` is assigned while computing len()",
            rel, muts[0].lineno if muts else ln.line)
     pm = parent_map(ln.node)
-    incs = [n for n in own_nodes(ln.node) if isinstance(n, ast.AugAssign) and isinstance(n.op, ast.Add)]
+    # the per-bucket contribution, interpreted: the body of the loop over the (bucket, count) table is run once for a grid of
+    # (count, size) under both values of drop_incomplete and the increase of the accumulator compared with count // size
+    # (incomplete batches dropped) / ceil(count / size) (kept). Whether the two cases are two branches, a rounding term added
+    # to the count first, or one conditional expression is immaterial.
+    from sa.inteval import NotEvaluable, int_eval, run_block
     got = {}
-    for n in incs:
-        gs = guards_of(pm, n)
-        flag = []
-        for t, pol in gs:
-            if "drop_incomplete" in u(t):
-                while isinstance(t, ast.UnaryOp) and isinstance(t.op, ast.Not):
-                    t, pol = t.operand, not pol
-                flag.append((u(t), pol))
-        if not flag:
-            continue
-        pol = flag[-1][1]
-        v = n.value
-        if isinstance(v, ast.BinOp) and isinstance(v.op, ast.FloorDiv):
-            cd = ceil_div(v)
-            nz = Normalizer()
-            if u(v.left) == "count" or (isinstance(v.left, ast.Name)):
-                kind = "floor"
-                if not isinstance(v.left, ast.Name):
-                    kind = "?"
-            if not isinstance(v.left, ast.Name):
-                x, d = cd
-                kind = "ceil" if len(x) == 1 and not padd(d, nz.poly(v.right), -1) and all(len(k) == 1 for k in x) else "?"
-            got[pol] = kind
+    loops = [n for n in own_nodes(ln.node) if isinstance(n, ast.For) and isinstance(n.target, ast.Tuple) and len(n.target.elts) == 2
+             and all(isinstance(x, ast.Name) for x in n.target.elts) and isinstance(n.iter, ast.Call) and isinstance(n.iter.func, ast.Attribute)
+             and n.iter.func.attr == "items"]
+    rets_ln = [n for n in own_nodes(ln.node) if isinstance(n, ast.Return) and n.value is not None]
+    if len(loops) == 1:
+        lp = loops[0]
+        cname = lp.target.elts[1].id
+        accs_ = {n.target.id for n in ast.walk(lp) if isinstance(n, ast.AugAssign) and isinstance(n.target, ast.Name)
+                 and any(isinstance(r_.value, ast.Name) and r_.value.id == n.target.id for r_ in rets_ln)}
+        flag_txt = {inl_ln.text(x) for x in ast.walk(ln.node) if isinstance(x, (ast.Attribute, ast.Name)) and inl_ln.text(x).endswith(".drop_incomplete")}
+
+        def _contrib(c_, s_, drop_):
+            def leaf(e):
+                t_ = inl_ln.text(e) if isinstance(e, (ast.Name, ast.Attribute)) else u(e)
+                if t_ in flag_txt:
+                    return drop_
+                if isinstance(e, ast.Subscript) and u(e.value).endswith("bucket2size"):
+                    return s_
+                return None
+            env = {cname: c_, "__leaf__": leaf}
+            for a_ in accs_:
+                env[a_] = 0
+            run_block(lp.body, env)
+            return {a_: env[a_] for a_ in accs_}
+        for drop_ in (True, False):
+            try:
+                kinds = set()
+                for c_ in range(0, 10):
+                    for s_ in range(1, 5):
+                        r_ = _contrib(c_, s_, drop_)
+                        if len(r_) != 1:
+                            kinds.add("?")
+                            continue
+                        v_ = next(iter(r_.values()))
+                        kinds.add("floor" if v_ == c_ // s_ else "ceil" if v_ == -(-c_ // s_) else "?")
+                # (count divisible by size: floor == ceil; the other points discriminate)
+                kinds = kinds - {"?"} if not ("?" in kinds) else {"?"}
+                if kinds == {"floor", "ceil"}:
+                    # decide by the points where they differ
+                    vals = {(c_, s_): next(iter(_contrib(c_, s_, drop_).values())) for c_ in range(0, 10) for s_ in range(1, 5) if c_ % s_}
+                    kinds = {"floor"} if all(v == c_ // s_ for (c_, s_), v in vals.items()) else \
+                        {"ceil"} if all(v == -(-c_ // s_) for (c_, s_), v in vals.items()) else {"?"}
+                got[drop_] = kinds.pop() if len(kinds) == 1 else "?"
+            except NotEvaluable as ex_:
+                got[drop_] = f"? ({ex_})"
     col.ob("G12", "S2", f"{where}::floor-when-dropping-ceil-otherwise", got == {True: "floor", False: "ceil"},
            f"batches per bucket are counted as {got} (expected count // size when incomplete batches are dropped, "
            f"ceil(count / size) otherwise)", rel, ln.line, sample={str(k): v for k, v in got.items()})
@@ -175,8 +201,10 @@ def _g24(ctx, consumer, rel):
     item_vars = set()
     subs = []
     for n in own_nodes(consumer.node):
-        if isinstance(n, ast.comprehension) and isinstance(n.iter, ast.Call) and call_name(n.iter) == "enumerate" \
-                and n.iter.args and u(n.iter.args[0]) == "dataset" and isinstance(n.target, ast.Tuple):
+        # a comprehension or an explicit loop over enumerate(dataset)
+        if isinstance(n, (ast.comprehension, ast.For)) and isinstance(n.iter, ast.Call) and call_name(n.iter) == "enumerate" \
+                and n.iter.args and u(n.iter.args[0]) == "dataset" and isinstance(n.target, ast.Tuple) and len(n.target.elts) == 2 \
+                and isinstance(n.target.elts[1], ast.Name):
             item_vars.add(n.target.elts[1].id)
     for n in own_nodes(consumer.node):
         if isinstance(n, ast.Subscript) and isinstance(n.value, ast.Name) and n.value.id in item_vars \
@@ -343,13 +371,27 @@ def _collate(ctx, f, rel):
     unzips = [n for n in own_nodes(f.node) if isinstance(n, ast.Call) and call_name(n) == "zip"
               and n.args and isinstance(n.args[0], ast.Starred)]
     col.floor(f"unzip_sites[{f.name}]", len(unzips), 1)
-    first_unzip = min(n.lineno for n in unzips)
+    pm_c = parent_map(f.node)
+
+    def _arms(n):
+        out, cur = {}, n
+        while cur is not None:
+            par = pm_c.get(cur)
+            if isinstance(par, ast.If):
+                out[id(par)] = "body" if any(cur is x for x in par.body) else "orelse" if any(cur is x for x in par.orelse) else "test"
+            cur = par
+        return out
+
+    def _exclusive(a, b):
+        aa, bb = _arms(a), _arms(b)
+        return any(k in bb and {aa[k], bb[k]} == {"body", "orelse"} for k in aa)
     for c in sorts:
         arg = c.args[0] if call_name(c) == "sorted" and c.args else (c.func.value if isinstance(c.func, ast.Attribute) else None)
         whole = isinstance(arg, ast.Name) and all(d.kind == "param" or (d.kind == "assign" and isinstance(d.value, ast.Call)
                                                                       and call_name(d.value) == "sorted")
                                                   for d in rd.defs_of(arg)) and arg.id == seqp
-        ok = whole and c.lineno < first_unzip
+        # before every unzip that can precede it on a path (an unzip in the other arm of a branch does not)
+        ok = whole and not any(z.lineno < c.lineno and not _exclusive(z, c) for z in unzips)
         col.ob("G16", "S4", f"{where}::sort-whole-items-before-unzip@{u(arg)}", ok,
                f"`{u(c)[:80]}` re-orders `{u(arg)}` - a single column / after the unzip - so the other columns "
                f"(sizes, utterance ids) no longer line up with their rows", rel, c.lineno, sample=u(c)[:100])
@@ -527,6 +569,13 @@ def _bucket_param_domain(ctx: Ctx, bp, rel: str):
             gens = [g for g in ast.walk(n.value) if isinstance(g, ast.comprehension)]
             if any(any(isinstance(x, ast.Name) and x.id == ds for x in ast.walk(g.iter)) for g in gens):
                 sized.add(n.targets[0].id)
+    # ... or filled by an explicit loop over the data set: `L = []; for i, x in enumerate(dataset): L.append(..)`
+    for n in own_nodes(bp.node):
+        if isinstance(n, ast.For) and any(isinstance(x, ast.Name) and x.id == ds for x in ast.walk(n.iter)):
+            for c in ast.walk(n):
+                if isinstance(c, ast.Call) and isinstance(c.func, ast.Attribute) and c.func.attr in ("append", "extend", "add") \
+                        and isinstance(c.func.value, ast.Name):
+                    sized.add(c.func.value.id)
     if not sized:
         raise AnalysisError("C14: no data-set-sized list in _get_bucket_batch_sampler_params")
 
